@@ -12,9 +12,9 @@
 
     [invb] / [step_okb] are executable versions (extracted; they judge the
     *implementation's* own state dumps in the correspondence check).
-    [CacheProofs.v] proves [Inv s -> invb s = true] and
-    [step_ok ... -> step_okb ... = true] (the judge cannot raise a false alarm on a
-    state/step that satisfies the spec). *)
+    [CacheJudge.v] proves [Inv s -> invb s = true] and
+    [step_ok ... -> step_okb ... = true]: the judge cannot raise a false alarm
+    on a state / step that satisfies the spec. *)
 From Coq Require Import NArith List Bool Arith PeanoNat Permutation.
 From KdV Require Import Cache.CacheList.
 Import ListNotations.
